@@ -12,6 +12,7 @@ package shmipc
 //        e2e <file|memfd> <streams> <killpoint> <[cb]peerdeath|[cb]closeclient|[cb]closeserver>
 
 import (
+	"runtime/debug"
 	"fmt"
 	"io"
 	"math/rand"
@@ -267,7 +268,10 @@ func c14PairCB(prefix string, mt MemMapType, cbMode bool) (*Session, *Session, *
 	lcb := &c14CB{ch: make(chan *Stream, 64), cbMode: cbMode}
 	scfg := c12Config(prefix+"_srv", mt)
 	scfg.listenCallback = lcb
-	chC := c12Start(c12Config(prefix, mt), ca, true)
+	scfg.Monitor = c14Monitor{} // the session's own monitor loop samples GetMetrics, the last time at shutdown
+	ccfg := c12Config(prefix, mt)
+	ccfg.Monitor = c14Monitor{}
+	chC := c12Start(ccfg, ca, true)
 	chS := c12Start(scfg, cb, false)
 	rc, okc := c12Wait(chC, 8*time.Second)
 	rs, oks := c12Wait(chS, 8*time.Second)
@@ -278,6 +282,11 @@ func c14PairCB(prefix string, mt MemMapType, cbMode bool) (*Session, *Session, *
 	}
 	return rc.sess, rs.sess, lcb, nil
 }
+
+type c14Monitor struct{}
+
+func (c14Monitor) OnEmitSessionMetrics(PerformanceMetrics, StabilityMetrics, ShareMemoryMetrics, *Session) {}
+func (c14Monitor) Flush() error                                                                            { return nil }
 
 type c14Call struct {
 	name string
@@ -483,6 +492,26 @@ func (c *c14Run) e2e(f []string) string {
 	if _, err := cli.OpenStream(); err == nil && cli.IsClosed() {
 		c.setFail("late-call-succeeds", "OpenStream succeeded on a closed session")
 	}
+	metrics := func(when string) {
+		// S (C14): nothing panics - reading the metrics of a dead session is a "later call" too (applications poll them)
+		for name, sess := range map[string]*Session{"client": cli, "server": srv} {
+			sess := sess
+			call := c14Go(name+" GetMetrics "+when, func() error {
+				debug.SetPanicOnFault(true)
+				sess.GetMetrics()
+				return nil
+			})
+			select {
+			case <-call.done:
+				if call.pan != nil {
+					c.setFail("call-panics", fmt.Sprintf("%s: %s faulted: %v", mode, call.name, call.pan))
+				}
+			case <-time.After(6 * time.Second):
+				c.setFail("late-call-hangs", fmt.Sprintf("%s: %s hangs", mode, call.name))
+			}
+		}
+	}
+	metrics("after the event")
 	// Close is idempotent and concurrent-safe
 	var wg sync.WaitGroup
 	for i := 0; i < 4; i++ {
@@ -501,6 +530,7 @@ func (c *c14Run) e2e(f []string) string {
 		}
 		time.Sleep(2 * time.Millisecond)
 	}
+	metrics("after both sessions are closed and cleaned up")
 	if fd1, m1, fl := c12CountFds(), c12CountMaps(prefix), c12CountFiles(prefix); fd1 > fd0 || m1 > maps0 || fl > 0 {
 		c.setFail("close-leaves-resources", fmt.Sprintf("%s after %d messages on %d streams: both sessions closed, yet %d descriptor(s) more than before, %d mapping(s) and %d file(s) of these sessions remain", mode, sent, nst, fd1-fd0, m1-maps0, fl))
 	}
